@@ -66,9 +66,9 @@ func init() {
 	})
 	addCheck(&CheckSpec{
 		Property: "C14", Level: "exploration",
-		Rule:   "index scenario (store layer): as C13 plus an OnQueryChange recorder evaluating queries and QueryChange.Events for generated queries inside the callback, on the index worker.",
-		Oracle: "exactly one query-change callback per mutation that changes some index key and none otherwise, per id in mutation order, after the mutation; inside the callback a query for the new key already returns the id and for the old key no longer does; Events(q) reports affected whenever the reference result of q differs between the index state before and after the update, and unaffected whenever neither old nor new key matches q's prefix and filter.",
-		Scen:   []ScenBudget{{"index", 2500, 100000}},
+		Rule:   "index scenario (store layer): as C13 plus an OnQueryChange recorder evaluating queries and QueryChange.Events for generated queries inside the callback, on the index worker. qsub scenario (handler layer): store.QueryHandler on a simulated service over badgerstore+QueryStore: an ordinary resource over the whole index, ordinary resources parameterised by a key prefix with an AffectedResources callback, and a query resource; a reference client holds seven results, re-gets on system.reset and sends a query request on the subject announced by a query event; 1-2 mutator goroutines, the index worker and the query listeners are interleaved by the tape.",
+		Oracle: "exactly one query-change callback per mutation that changes some index key and none otherwise, per id in mutation order, after the mutation; inside the callback a query for the new key already returns the id and for the old key no longer does; Events(q) reports affected whenever the reference result of q differs between the index state before and after the update, and unaffected whenever neither old nor new key matches q's prefix and filter; handler layer: at quiescence every result the client holds (updated only through the notifications it received) equals a fresh get.",
+		Scen:   []ScenBudget{{"index", 2500, 100000}, {"qsub", 1500, 60000}},
 	})
 	addCheck(&CheckSpec{
 		Property: "C12", Level: "fault_enumeration", OwnsPanics: true,
